@@ -343,39 +343,35 @@ def ord_hydrogens(repo, tier="quick"):
 
 
 def prov_h_inherit(repo, tier="quick"):
-    """C02/C09: the hydrogen attribute copy takes each value from a neighbour of the hydrogen and
-    skips only single-hydrogen fragments."""
+    """C02/C09: the hydrogen attribute copy takes each value from a neighbour of the hydrogen, skips
+    only single-hydrogen fragments and attributes the hydrogen already has (membership, not truth)."""
     fi = repo.function("pysmiles_utils:rebuild_h_atoms")
-    fl = fi.flow
+    fl, cfg = fi.flow, fi.cfg
     graph = ("param", fi.positional_params[0])
     from .common import node_attr, enclosing_loops, elem_of, strip_wrappers
+    from .extra import _truth_tested
     obs = []
-    found = 0
-    for n in fi.cfg.nodes:
-        if n.kind != "stmt" or not isinstance(n.ast, ast.Assign):
-            continue
-        tgt = n.ast.targets[0]
-        if not isinstance(tgt, ast.Subscript):
-            continue
-        tt = fl.canon(tgt, n.id)
-        na = node_attr(tt)
-        if not na or na[0] != graph:
-            continue
-        g, hnode, key, _ = na
-        ek = elem_of(key)
-        if not ek or ek[0] != "elem":
-            continue
-        # key iterates copy_attrs
-        if strip_wrappers(ek[1]) != ("param", "copy_attrs"):
-            continue
-        found += 1
-        val = fl.canon(n.ast.value, n.id)
+    stores = []      # (cfg node, ast, hnode term, key term, value term, kind)
+    for n in cfg.nodes:
+        if n.kind == "stmt" and isinstance(n.ast, ast.Assign) and isinstance(n.ast.targets[0], ast.Subscript):
+            tt = fl.canon(n.ast.targets[0], n.id)
+            na = node_attr(tt)
+            if na and na[0] == graph:
+                stores.append((n, n.ast, na[1], na[2], fl.canon(n.ast.value, n.id), "assign"))
+        if n.kind == "stmt" and isinstance(n.ast, ast.Expr) and isinstance(n.ast.value, ast.Call):
+            ct = fl.canon(n.ast.value, n.id)
+            m = method_call(ct, "setdefault")
+            if m and len(m[2]) == 2 and m[0][0] == "sub" and m[0][1] == ("attr", graph, "nodes"):
+                stores.append((n, n.ast, m[0][2], m[2][0], m[2][1], "setdefault"))
+    stores = [s_ for s_ in stores if elem_of(s_[3]) and elem_of(s_[3])[0] == "elem" and strip_wrappers(elem_of(s_[3])[1]) == ("param", "copy_attrs")]
+    if not stores:
+        raise AnalysisError("anchor vanished: no store of graph.nodes[h][attr] over copy_attrs in rebuild_h_atoms", fi.where())
+    for n, st, hnode, key, val, kind in stores:
         va = node_attr(val)
         ok = False
         why = "value is not read from a neighbour of the hydrogen"
         if va and va[0] == graph and va[2] == key:
             anchor = va[1]
-            # anchor = next(graph.neighbors(hnode)) or an element of graph.neighbors(hnode) / graph[hnode]
             c = is_call(anchor, "next")
             src = c[0][0] if c else (elem_of(anchor)[1] if elem_of(anchor) else None)
             if src is not None:
@@ -385,17 +381,15 @@ def prov_h_inherit(repo, tier="quick"):
                     ok = True
                 elif src == ("sub", graph, hnode) or src == ("sub", ("attr", graph, "adj"), hnode):
                     ok = True
-        (obs.append(ob_ok("PROV.h-inherit", fi, n.ast, construct="graph.nodes[h][attr] = graph.nodes[neighbour(h)][attr]", instance="copy",
+        (obs.append(ob_ok("PROV.h-inherit", fi, st, construct="graph.nodes[h][attr] = graph.nodes[neighbour(h)][attr]", instance="copy",
                           reason="each copied attribute comes from the atom the hydrogen is bonded to")) if ok else
-         obs.append(ob_fail("PROV.h-inherit", fi, n.ast, construct="graph.nodes[h][attr] = %s" % show(val), instance="copy", reason=why)))
-        # guards: element == 'H' and not single_h_frag; `attr in nodes[h]` -> skip
+         obs.append(ob_fail("PROV.h-inherit", fi, st, construct="graph.nodes[h][attr] = %s" % show(val), instance="copy", reason=why)))
         gs = guards_of(fi, n.id)
         texts = [(ast.unparse(t), pol) for t, pol, _ in gs]
-        has_h = any("'H'" in t or '"H"' in t for t, pol in texts if pol)
-        (obs.append(ob_ok("PROV.h-inherit", fi, n.ast, construct="guard: element == 'H'", instance="guard", reason="copy applies to hydrogens"))
+        has_h = any(("'H'" in t or '"H"' in t) for t, pol in texts if pol)
+        (obs.append(ob_ok("PROV.h-inherit", fi, st, construct="guard: element == 'H'", instance="guard", reason="copy applies to hydrogens"))
          if has_h else
-         obs.append(ob_fail("PROV.h-inherit", fi, n.ast, construct="guards: %s" % texts, instance="guard", reason="copy loop is not restricted to hydrogen atoms")))
-        # the copy loop ranges over all nodes of the graph
+         obs.append(ob_fail("PROV.h-inherit", fi, st, construct="guards: %s" % texts, instance="guard", reason="copy loop is not restricted to hydrogen atoms")))
         loops = enclosing_loops(fi, n.id)
         outer = loops[-1] if loops else None
         okl = False
@@ -404,12 +398,44 @@ def prov_h_inherit(repo, tier="quick"):
             m = method_call(it, "nodes")
             if it == ("attr", graph, "nodes") or it == graph or (m and m[0] == graph):
                 okl = True
-        (obs.append(ob_ok("PROV.h-inherit", fi, n.ast, construct="for node in graph.nodes", instance="range", reason="every node of the graph is visited"))
+        (obs.append(ob_ok("PROV.h-inherit", fi, st, construct="for node in graph.nodes", instance="range", reason="every node of the graph is visited"))
          if okl else
-         obs.append(ob_fail("PROV.h-inherit", fi, n.ast, construct="copy loop range", instance="range", reason="the copy loop does not range over all nodes of the graph")))
-    if not found:
-        raise AnalysisError("anchor vanished: no `graph.nodes[h][attr] = ...` over copy_attrs in rebuild_h_atoms", fi.where())
-    # must come after the hydrogens were added
+         obs.append(ob_fail("PROV.h-inherit", fi, st, construct="copy loop range", instance="range", reason="the copy loop does not range over all nodes of the graph")))
+        # SENT: inside the attribute loop no attribute *value* is tested for truth (weight 0 is a value)
+        inner = loops[0] if loops else None
+        tested = []
+        if inner is not None:
+            body_nodes = cfg.loops.get(inner.id, set())
+            for bn in body_nodes:
+                node = cfg.nodes[bn]
+                if node.kind in ("if", "while"):
+                    tested += [(e, bn) for e in _truth_tested(node.ast.test)]
+                elif node.kind == "stmt":
+                    for sub in ast.walk(node.ast):
+                        if isinstance(sub, ast.IfExp):
+                            tested += [(e, bn) for e in _truth_tested(sub.test)]
+                        if isinstance(sub, ast.BoolOp):
+                            for v in sub.values[:-1]:
+                                tested += [(e, bn) for e in _truth_tested(v)]
+        bad = []
+        for e, bn in tested:
+            t = fl.canon(e, bn)
+            na2 = node_attr(t)
+            if na2 and na2[0] == graph and na2[2] == key:
+                bad.append(e)
+        (obs.append(ob_fail("SENT.attribute-value", fi, bad[0], construct="truth test on %s" % ast.unparse(bad[0]), instance="copy-guard",
+                            reason="an attribute value is tested for truth: weight 0 (a legitimate annotation) is treated as 'not set', so it is overwritten or not inherited")) if bad else
+         obs.append(ob_ok("SENT.attribute-value", fi, st, construct="attribute presence is tested by membership", instance="copy-guard",
+                          reason="falsy values such as weight 0 are kept and inherited")))
+        # an attribute the hydrogen already has is not replaced
+        if kind == "assign":
+            keep = any(isinstance(t, ast.Compare) and isinstance(t.ops[0], (ast.In, ast.NotIn)) for t, pol, _ in gs) or \
+                any(cfg.nodes[d].kind == "if" and isinstance(cfg.nodes[d].ast.test, ast.Compare) and isinstance(cfg.nodes[d].ast.test.ops[0], (ast.In, ast.NotIn))
+                    and cfg.dominates(d, n.id) for d in (cfg.loops.get(inner.id, set()) if inner is not None else ()))
+            (obs.append(ob_ok("PROV.h-inherit", fi, st, construct="skip attributes the hydrogen already carries", instance="keep-explicit",
+                              reason="annotations written on an explicit hydrogen win")) if keep else
+             obs.append(ob_fail("PROV.h-inherit", fi, st, construct="unconditional overwrite", instance="keep-explicit",
+                                reason="annotations written on an explicit hydrogen are overwritten by its heavy atom's")))
     return obs
 
 
